@@ -79,6 +79,21 @@ ListUpdateEdge(a, b, w) ==
             ELSE LET f == CHOOSE e \in m : \A g \in m : e.k <= g.k IN
                  /\ E' = (E \ {f}) \cup {[f EXCEPT !.w = w]} /\ ret' = <<"li", <<a, Rank(f)>>>>
                  /\ UNCHANGED <<nodes, stamp>> /\ Same2
+\* add_node_from_edges: the new node comes with its successor list, in order (targets are not validated by the code;
+\* the driver passes existing nodes or the new node itself)
+RECURSIVE ListRowFold(_, _, _, _)
+ListRowFold(es, st, a, l) ==
+    IF l = <<>> THEN <<es, st>>
+    ELSE ListRowFold(es \cup {[a |-> a, b |-> Head(l)[1], w |-> Head(l)[2], k |-> st]}, st + 1, a, Tail(l))
+ListAddNodeFrom(l) ==
+    LET r == ListRowFold(E, stamp, N, l) IN
+    /\ nodes' = [x \in Live \cup {N} |-> 0] /\ ret' = <<"i", N>> /\ E' = r[1] /\ stamp' = r[2] /\ Same2
+\* DataMapMut::edge_weight_mut((a, rank)): the rank-th edge of a's row
+ListSetEdgeWeight(a, rk, w) ==
+    LET m == {e \in E : e.a = a /\ Rank(e) = rk} IN
+    IF a \in Live /\ m # {} THEN LET f == CHOOSE e \in m : TRUE IN
+         /\ ret' = <<"i", f.w>> /\ E' = (E \ {f}) \cup {[f EXCEPT !.w = w]} /\ UNCHANGED <<nodes, stamp>> /\ Same2
+    ELSE ret' = <<"none">> /\ Unch
 Clear == nodes' = Ident /\ E' = {} /\ ret' = <<"s", "ok">> /\ UNCHANGED stamp /\ Same2
 
 --------------------------------------------------------------------------
